@@ -78,11 +78,34 @@ PROPS = {
                  "non-zero value precedes a surviving non-zero field in the encoding; labels record the skipped wire forms; distinct by case hash."),
         "jobs": [{"run": "^TestC03", "shards": 48, "timeout_quick": 600, "timeout_thorough": 3000}],
     },
+    "C10": {
+        "rule": ("stateful / model-based: a case is (config, 1-3 generated struct types, 3-14 operations) run against one long-lived Plenc that also "
+                 "carries the history of all earlier cases. Operations: marshal(v) into a buffer pool, newTarget(prior value), "
+                 "decodeInto(existing target), decodeFresh, scribble (overwrite a used input buffer, then refill), remarshal into buf[:0]. "
+                 "Model: one value per target updated with the harness's Merge rules (present overwrites, absent keeps, structs and non-nil "
+                 "pointers recursively, slices hold exactly the encoded elements - appended in the repeated form -, maps merged by key). "
+                 "Invariant after every step: every target equals its model (nil and empty slices interchangeable); every decodeFresh equals "
+                 "the normalised value and the decode of a brand-new instance. Non-trivial = a decodeInto whose prior and data are both non-zero, "
+                 "or a decodeFresh after >=2 earlier decodes of that type; distinct by hash of the whole operation sequence."),
+        "jobs": [{"run": "^TestC10", "shards": 32, "timeout_quick": 600, "timeout_thorough": 3000}],
+    },
+    "C12": {
+        "rule": ("struct types from the protobuf-expressible profile (indexes >=1, every map field tagged proto, no null types; slices, nested "
+                 "structs, pointers, named and recursive catalog types allowed) x values without nil slice entries; every case is run under "
+                 "all four option combinations. Oracles: (a) with both options on the bytes are accepted by an independent standard-protobuf "
+                 "reader driven by a schema derived from the type (only wire types 0/1/2/5, known field numbers >=1, wire type matches kind, "
+                 "every length exact, packed bodies end exactly, singular fields once, Timestamp{1,2} plain varints with nanos<1e9); (b) round "
+                 "trip in each mode; (c) a default instance decodes the arrays-on bytes to the same value; (d) Marshal equals the reference "
+                 "encoder for each configuration and top-level fields not containing a time / a slice of length-delimited elements are "
+                 "byte-identical when the corresponding switch is flipped. Non-trivial = the protobuf form has >=1 repeated field or "
+                 "Timestamp; distinct by case hash."),
+        "jobs": [{"run": "^TestC12", "shards": 32, "timeout_quick": 600, "timeout_thorough": 3000}],
+    },
 }
 
 # Properties not (yet) claimed, with the reason. Kept current by hand.
 NOT_APPLICABLE = {p: "check not built yet in this commit (work in progress; the technique applies, see DESIGN.md)" for p in
-                  ["C04", "C07", "C08", "C10", "C12", "C13", "C14", "C15", "C16", "C17", "C19", "C20"]}
+                  ["C04", "C07", "C08", "C13", "C14", "C15", "C16", "C17", "C19", "C20"]}
 
 # commits in /repo that add build-tag-guarded hooks
 HOOK_COMMITS = []
